@@ -3,6 +3,7 @@ package verifsim
 import (
 	"context"
 	"fmt"
+	"strings"
 	"sync"
 	"syscall"
 	"time"
@@ -514,4 +515,190 @@ func c11HotJournalRace(r *Run) {
 	// pages: LiteFS records that as a transaction with the same checksum)
 	r.Check(db.Pos().PostApplyChecksum == pos.PostApplyChecksum, "c11.hot-journal-position", "rolling a dead transaction back changed the database's checksum: position %s -> %s", pos, db.Pos())
 	r.State("hot-journal/%s/%s/%d/%v", h.jmode, kind, nReaders, r.Cfg["mutex_seam"])
+}
+
+// c11ModeChangeRace: the journal mode changes while LiteFS's internal writer
+// waits for its write lock. An application connection takes a WAL database back
+// to a rollback journal (the way OP_JournalMode does: close the log as the last
+// connection, then a rollback-journal transaction that rewrites the header);
+// other connections open, read page 1 and follow the protocol of the mode they
+// find; internal writers (AcquireWriteLock with its retry loop, as recovery,
+// checkpoints, imports and halt locks use it) keep asking. All of them are
+// tasks of the seeded scheduler with every lock transition a scheduling point.
+// Oracle: at the instant the internal write lock is granted no connection holds
+// a lock that conflicts with it in the journal mode the database file is in at
+// that instant (rollback: any database-file lock; WAL: any wal-index lock).
+func c11ModeChangeRace(r *Run) {
+	t := r.Tape
+	n := newStaticPrimary(r, false, nil)
+	if n == nil {
+		return
+	}
+	h := &hist{r: r, n: n, name: "db"}
+	h.pageSize = []uint32{512, 4096}[t.Next(2)]
+	h.jmode = []string{ModeDelete, ModeTruncate, ModePersist}[t.Next(3)]
+	h.maxPages = 8
+	if !h.openConns(1) {
+		return
+	}
+	for i := 0; i < 3 && h.ref.N() < 2; i++ {
+		h.commit(t)
+	}
+	if r.Failed() || h.ref.N() == 0 || !h.toWAL() {
+		return
+	}
+	h.commit(t)
+	if r.Failed() {
+		return
+	}
+	db := n.Store.DB(h.name)
+	if db == nil {
+		return
+	}
+	flipper := h.conns[0]
+	h.conns = nil
+	ref := h.ref
+	s := r.NewSched()
+	installLockSeam(r, n, db, nil)
+	s.Stick = t.Range(20, 90)
+	s.MaxTick = 2 * time.Millisecond
+	r.MutexSeam = MutexYieldBuilt && t.Chance(1, 3)
+	r.AtomicSeam = MutexYieldBuilt && t.Chance(1, 2)
+	r.Cfg["mutex_seam"], r.Cfg["atomic_seam"], r.Cfg["page_size"], r.Cfg["jmode"] = r.MutexSeam, r.AtomicSeam, h.pageSize, h.jmode
+	var wg sync.WaitGroup
+	flipped := false
+	wg.Add(1)
+	s.Go("flipper", func() {
+		defer wg.Done()
+		for try := 0; try < 40 && !s.stopping.Load(); try++ {
+			s.Yield(0, "op", "leave-wal")
+			if flipper.wal != nil {
+				if at, e := flipper.WalCloseLast(ref); e != 0 {
+					r.Count("c11.mode-change.close-refused")
+					time.Sleep(time.Millisecond)
+					s.Yield(0, "op", "wake")
+					continue
+				} else if at == "not-last" {
+					// other connections are open: come back as one of them
+					if flipper.Open() != 0 || flipper.WalOpen() != 0 {
+						return
+					}
+					time.Sleep(time.Millisecond)
+					s.Yield(0, "op", "wake")
+					continue
+				}
+			}
+			flipper.UnlockAll()
+			flipper.Mode = h.jmode
+			res := flipper.WriteTx(TxProgram{NewSize: ref.N(), Outcome: OutCommit, SetWAL: 2}, ref)
+			if res.Outcome == OutCommit {
+				ref = res.After
+				flipped = true
+				r.Count("c11.mode-change.left-wal")
+				return
+			}
+			r.Count("c11.mode-change.flip-" + res.Outcome)
+			if res.Outcome == "error" && res.Errno != syscall.EAGAIN {
+				return
+			}
+			time.Sleep(time.Millisecond)
+			s.Yield(0, "op", "wake")
+		}
+	})
+	// connections that open, look at page 1 and read under that mode's locks
+	for i, k := 0, t.Range(1, 2); i < k; i++ {
+		rounds := t.Range(4, 12)
+		wg.Add(1)
+		s.Go(fmt.Sprintf("conn%d", i), func() {
+			defer wg.Done()
+			for j := 0; j < rounds && !s.stopping.Load(); j++ {
+				s.Yield(0, "op", "open")
+				c := n.NewConn(h.name, h.jmode, h.pageSize)
+				if c.Open() != 0 {
+					continue
+				}
+				if c.LockShared() == 0 {
+					hdr, ok, e := c.ReadHeader()
+					switch {
+					case e != 0 || !ok:
+					case hdr.WAL:
+						if c.WalOpen() == 0 {
+							if _, e := c.WalBeginRead(); e == 0 {
+								s.Yield(0, "op", "hold")
+								c.WalEndRead()
+							}
+						}
+					default:
+						// a rollback-mode reader keeps SHARED for the length of its statement
+						s.Yield(0, "op", "hold")
+						time.Sleep(time.Duration(1+j%4) * time.Millisecond)
+						s.Yield(0, "op", "wake")
+					}
+				}
+				c.Close()
+			}
+		})
+	}
+	// the internal writer (one: two of them waking from their retry timers at
+	// the same instant would race for the first lock before either reaches a
+	// scheduling point, and no seed decides that race)
+	grants := 0
+	for i, k := 0, 1; i < k; i++ {
+		rounds := t.Range(6, 16)
+		wg.Add(1)
+		s.Go(fmt.Sprintf("internal%d", i), func() {
+			defer wg.Done()
+			for j := 0; j < rounds && !s.stopping.Load(); j++ {
+				s.Yield(0, "op", "acquire")
+				ctx, cancel := context.WithTimeout(context.Background(), 10*time.Second)
+				gs, err := db.AcquireWriteLock(ctx, nil)
+				cancel()
+				if err != nil || gs == nil {
+					r.Count("c11.mode-change.acquire-failed")
+					continue
+				}
+				// granted: no scheduling point between the grant and this look
+				wal := rawWALMode(db.Path())
+				if bad := conflictingClientLocks(wal, n.K.Locks.Held(h.name), n.K.Locks.Held(h.name+"-shm")); len(bad) > 0 {
+					r.Failf("c11.write-lock-under-client-lock", "LiteFS's internal write lock was granted on a database that is in %s mode while %s (the journal mode changed while the internal writer was waiting: %v)", map[bool]string{true: "WAL", false: "rollback-journal"}[wal], strings.Join(bad, ", "), flipped)
+					gs.Unlock()
+					return
+				}
+				grants++
+				r.Count("c11.mode-change.granted")
+				s.Yield(0, "op", "held")
+				gs.Unlock()
+			}
+		})
+	}
+	done := make(chan struct{})
+	go func() { wg.Wait(); close(done) }()
+	finished := func() bool {
+		select {
+		case <-done:
+			return true
+		default:
+			return false
+		}
+	}
+	for steps := 0; steps < 8000 && !r.Failed(); steps++ {
+		s.Settle()
+		if finished() {
+			break
+		}
+		if !s.StepOnce(nil, true) {
+			time.Sleep(time.Millisecond)
+		}
+	}
+	s.Stop()
+	r.MutexSeam, r.AtomicSeam = false, false
+	for i := 0; i < 15000 && !finished(); i++ {
+		time.Sleep(time.Millisecond)
+		s.Settle()
+	}
+	if !r.Failed() && !finished() {
+		r.Inconclusive("c11 mode change: tasks did not finish")
+		return
+	}
+	r.State("mode-change/%v/%d", flipped, min(grants, 3))
 }
